@@ -75,6 +75,20 @@ def _systematic(kind):
           steps += [['adv', 50], ['probe'], ['adv', 700], ['probe'], ['adv', 6000], ['probe'],
                     ['adv', 50000 if (kind == 'mux' and fk == 'hang') else 100], ['probe'], ['adv', 100]]
           out.append({'kind': kind, 'fault_at': {'0': {str(opn): fk}}, 'steps': steps, 'plans': [['ok', 0]], 'rseed': opn})
+  # the same single faults with the client reading in small pieces: a fault lands in the middle of a length
+  # prefix or of a body (only end-of-stream and errors; 1-2 requests)
+  for chunk in (3, 7):
+    for opn in range(2, (14 if kind == 'thrift' else 20)):
+      for fk in ('eof', 'exc'):
+        for nreq in (1, 2):
+          steps = [['open'], ['adv', 20]]
+          for r in range(nreq):
+            steps.append(['req', r + 1, 503])
+            steps.append(['adv', 10])
+            steps.append(['reply', 0])
+            steps.append(['adv', 10])
+          steps += [['adv', 50], ['probe'], ['adv', 700], ['probe'], ['adv', 100]]
+          out.append({'kind': kind, 'fault_at': {'0': {str(opn): fk}}, 'steps': steps, 'plans': [['ok', 0]], 'rseed': opn, 'chunk': chunk})
   if kind == 'thrift':
     # transport-level timeout, then the re-connect is slow / refused / hangs, with traffic in the window
     for plan1 in (['ok', 0], ['ok', 30], ['ok', 200], ['refuse', 0], ['refuse', 30], ['hang']):
@@ -92,6 +106,15 @@ def _systematic(kind):
           for r in range(nreq):
             steps.append(['req', r + 1, T])
           steps += [['adv', 10], ['silent', 1], ['adv', 30000], ['adv', 20000], ['probe'], ['adv', 100]]
+          out.append({'kind': kind, 'fault_at': {}, 'steps': steps, 'plans': [['ok', 0]], 'rseed': when})
+          # ... and stops reading as well: writes block part-way, later requests and the ping pile up behind them
+          steps = [['open'], ['adv', when]]
+          for r in range(nreq):
+            steps.append(['req', r + 1, T])
+          steps += [['adv', 10], ['silent', 1], ['stall', 200000]]
+          for r in range(nreq, nreq + 3):
+            steps.append(['req', r + 1, T])
+          steps += [['adv', 30000], ['adv', 20000], ['adv', 40000], ['adv', 100]]
           out.append({'kind': kind, 'fault_at': {}, 'steps': steps, 'plans': [['ok', 0]], 'rseed': when})
   return out
 
@@ -200,6 +223,20 @@ def cases(prop, tier, seed):
             steps += [['req', 5, 0], ['adv', 10], ['reply', 2], ['reply', 1], ['reply', 0], ['adv', 100]]
             out.append({'kind': 'mux', 'fault_at': {}, 'plans': [['ok', 0]], 'steps': steps, 'rseed': stall + gap})
   if prop == 'C11':
+    # recycled tags held by requests that are queued or half-written behind a blocked write, and the peer
+    # repeats an old reply naming one of them (the request cannot have been answered: the peer has not got it)
+    for ntag in (1, 2, 3):
+      for which in range(ntag):
+        for typ in (-2, -128):
+          steps = [['open'], ['adv', 20]]
+          for r in range(ntag):
+            steps.append(['req', r + 1, 0])
+          steps += [['adv', 10]] + [['reply', 0]] * ntag + [['adv', 10], ['stall', 300]]
+          for r in range(ntag, 2 * ntag):
+            steps.append(['req', r + 1, 0])
+          steps += [['adv', 10], ['frame', typ, 2 + which], ['adv', 10], ['req', 2 * ntag + 1, 0], ['req', 2 * ntag + 2, 0], ['adv', 400]]
+          steps += [['reply', 0]] * (ntag + 2) + [['adv', 50]]
+          out.append({'kind': 'mux', 'fault_at': {}, 'plans': [['ok', 0]], 'steps': steps, 'rseed': ntag})
     # a long-lived connection whose tag counter is near a boundary of the 24-bit tag space (or of a narrower
     # field): requests in flight below the boundary, then the counter is fast-forwarded, then more requests
     for k in (254, 255, 32766, 65533, 65534, 65535, 8388606, 16777210, 16777211, 16777212):
@@ -227,6 +264,7 @@ def cases(prop, tier, seed):
 # ------------------------------------------------------------------ driver
 def run_case(script):
   loop = common.boot()
+  cuts = common.cpu_watchdog(20)
   import gevent
   from harness.simgevent import simnet, peers
   from harness.simgevent.vloop import EPOCH
@@ -291,6 +329,8 @@ def run_case(script):
     fa = fault_at.get(str(conn.idx))
     if fa:
       conn.fault_at = {int(k): v for k, v in fa.items()}
+    if script.get('chunk'):
+      conn.chunk = script['chunk']       # the client gets at most that many bytes per recv: reads end mid-frame
   net.on_connect_start = on_connect_start
 
   tprov = SocketTransportSink.Builder()
